@@ -48,3 +48,15 @@ def derive_shape():
     struct_arm = re.search(r'Struct\(_\)\s*=>\s*\{\s*quote!\s*\{\s*(.*?)\s*\}', src, re.S)
     norm = lambda m: re.sub(r'\s+', '', m.group(1)) if m else ''
     return norm(enum_arm), norm(struct_arm)
+
+
+def enum_variants():
+    """{enum name: [variant names in declaration order]} for every enum deriving Node"""
+    out = {}
+    for f in rs_files('sv-parser-syntaxtree'):
+        src = open(f).read(); ss = blank_literals(src)
+        for m in re.finditer(r'#\[derive[^\]]*Node[^\]]*\]\s*pub enum (\w+)[^{]*\{', ss):
+            e = match_brace(ss, m.end())
+            body = ss[m.end():e - 1]
+            out[m.group(1)] = re.findall(r'^\s*(\w+)\s*\(', body, re.M)
+    return out
